@@ -588,6 +588,15 @@ def supervisor_stream_parses(m):
             bad.append('%s: message of unknown origin' % p.loc())
     if n == 0:
         return False, 'no producer found for the supervisor channel'
+    # the second token may be EMPTY (the client parser accepts `leave ` with an empty node name and the handler passes it on): the
+    # consumer must split positionally (splitn / split on a separator yield an empty piece), not with a tokenizer that drops empty pieces
+    for b in m.prog.user_bodies():
+        if 'start_replication_supervisor' not in b.id:
+            continue
+        for bi, t in b.calls():
+            if callee_decl(t) in ('std::str::split_whitespace', 'std::str::split_ascii_whitespace'):
+                bad.append('%s: the supervisor tokenises its message with %s — an empty argument (`leave `) yields no token and the unwrap of '
+                           'the next() panics on the node\'s main thread' % (b.loc(bi), callee_decl(t).split('::')[-1]))
     return (not bad), ('all %d supervisor templates have a second token; replicate-since-to carries a u64' % n if not bad else '; '.join(bad[:4]))
 
 
